@@ -177,10 +177,34 @@ pub fn c06() -> i32 {
                 }
             }
         }
+        // long histories: the 60-slot ring wraps many times; lossy background; all-local hosts
+        let long_rounds = if t { 2500 } else { 700 };
+        for (tp, w, d) in [("1+1", 8usize, 0usize), ("2+1", 2, 2), ("2", 8, 1), ("1", 0, 0), ("1+1+1", 3, 0)] {
+            for (catchup, max_behind) in [(1usize, 10usize), (4, 2)] {
+                for bg in 0..2 {
+                    let mut s = spec_scn("c06-long", tp, w, d, false, catchup, max_behind, false);
+                    if bg == 1 {
+                        s.background = Background { loss_every: 5, delay_every: 7, stall_every: 17 };
+                        // host<->spectator losses too
+                        let a = s.peers[0].addr;
+                        let mut st = 30;
+                        while st < long_rounds {
+                            s.outages.push(Outage { from: a, to: 20, start: st, len: 4, classes: CLASS_ALL });
+                            s.outages.push(Outage { from: 20, to: a, start: st + 50, len: 6, classes: CLASS_ALL });
+                            st += 131;
+                        }
+                    }
+                    s.name = format!("{} {long_rounds} rounds background={bg}", s.name);
+                    s.horizon = long_rounds;
+                    s.probe = 40;
+                    scns.push(s);
+                }
+            }
+        }
         let n = scns.len();
         let cfg = ExploreCfg { k: Some(0), wall: Duration::from_secs(60), ..Default::default() };
         let out = explore(&scns, &cfg, &judge);
-        rep.absorb("spectators ticking every 1st/2nd/3rd round, lockstep and rollback hosts", out, &props, json!({"k": 0, "scenarios": n}));
+        rep.absorb("spectators ticking every 1st/2nd/3rd round, lockstep and rollback hosts; long histories (the 60-slot ring wraps many times) incl. all-local hosts", out, &props, json!({"k": 0, "scenarios": n}));
     }
     // ---- k deviations
     {
